@@ -50,6 +50,8 @@ mod jit;
 #[cfg(not(feature = "std"))]
 mod no_std_error;
 mod stack;
+#[cfg(all(rbpf_verif, feature = "std"))]
+pub mod verif;
 mod verifier;
 
 /// Reexports all the types needed from the `std`, `core`, and `alloc`
